@@ -585,7 +585,7 @@ Next ==
                                        LET S == {ln[j].t : j \in {x \in 1..Len(ln) : ln[x].n = n}}
                                            base == IF ND(r, n).inc # h.inc[n] THEN 0 ELSE @[n]  \* new process, new subscription
                                        IN IF S = {} THEN base ELSE CHOOSE m \in S : \A o \in S : m >= o]]
-                 rdiv == IF Len(Evs(r, "RoundEnd")) > 0
+                 rdiv == IF Len(Evs(r, "RoundEnd")) > 0 /\ r.a.a \notin {"Recover", "Drain", "Final"}
                          THEN LET c == Evs(r, "RoundEnd")[1].n
                               IN IF RoundPost(hp2, rp, r, c) THEN {} ELSE {D(r, "round-outcome", c)}
                          ELSE {}
